@@ -226,3 +226,61 @@ def matrix_cases():
                     for kr in (False, True):
                         out.append(matrix_case(mp, where, hr, kind, kr))
     return out
+
+
+# ------------------------------------------------------------------ rename chains and cycles over SIBLING names
+# A mapper may rename a field onto the NAME of a sibling that is itself renamed (x -> a, a -> z), or swap two names
+# (x -> a, a -> x); the sibling may also be left out of the document (DoNotSerialize) or replaced by a Constant.
+# x kind x sibling kind x chain/cycle x field order x where the mapper is given.
+
+C_X = ["required", "optional", "defaulted"]
+C_A = ["required", "optional", "defaulted", "DoNotSerialize", "Constant"]
+
+
+def chain_case(shape, xk, ak, a_first, where):
+    xdecl = "Integer(default=5)" if xk == "defaulted" else "Integer()"
+    adecl = "String(default='dd')" if ak == "defaulted" else "String()"
+    fields = [("x", xdecl), ("a", adecl)]
+    if a_first:
+        fields.reverse()
+    req = ["n"] + (["x"] if xk == "required" else []) + (["a"] if ak in ("required", "DoNotSerialize", "Constant") else [])
+    if ak == "DoNotSerialize":
+        amap = "DoNotSerialize"
+    elif ak == "Constant":
+        amap = "Constant('k')"
+    else:
+        amap = "'z'" if shape == "chain" else "'x'"
+    # a Constant keeps its own key in the document: renaming x onto it would make two fields share one output key (a
+    # nonsensical mapper, not a defect of the export), so the Constant sibling comes with x renamed elsewhere
+    mtxt = "{'x': %s, 'a': %s}" % ("'y'" if ak == "Constant" else "'a'", amap)
+    src = "from typedpy.serialization.mappers import DoNotSerialize\nfrom typedpy.commons import Constant\n"
+    src += "class T(Structure):\n" + "".join("    %s = %s\n" % fd for fd in fields) + "    n = Boolean()\n"
+    src += "    _required = %r\n" % sorted(req)
+    if where == "class":
+        src += "    _serialization_mapper = %s\n" % mtxt
+    src += "TOP = T\n"
+    if where == "arg":
+        src += "MAPPER = %s\n" % mtxt
+    insts = ["T(x=1, a='s', n=True)"]
+    if xk != "required" and ak not in ("required", "DoNotSerialize", "Constant"):
+        insts.append("T(n=False)")
+    if xk != "required":
+        insts.append("T(a='s', n=False)")
+    if ak not in ("required", "DoNotSerialize", "Constant"):
+        insts.append("T(x=2, n=False)")
+    src += "INSTANCES = [%s]\n" % ", ".join(insts)
+    name = "rename-%s/%s/x-%s/a-%s/%s-first" % (shape, where, xk, ak, "a" if a_first else "x")
+    return name, src
+
+
+def chain_cases():
+    out = []
+    for shape in ("chain", "cycle"):
+        for where in M_WHERE:
+            for xk in C_X:
+                for ak in C_A:
+                    if shape == "cycle" and ak in ("DoNotSerialize", "Constant"):
+                        continue
+                    for a_first in (False, True):
+                        out.append(chain_case(shape, xk, ak, a_first, where))
+    return out
